@@ -440,6 +440,102 @@ func runC17(c *eng.Ctx) {
 			}
 		}
 	}
+	c17OtherElements(c)
+}
+
+// c17OtherElements: containers whose elements are themselves lists / arrays / scalars, reached by index selectors ("/0" == 1); the
+// oracle is the property itself on the real code: Execute keeps exactly the elements on which a freshly created Evaluator says true,
+// errors iff one of them errors, in a container of the input's kind (a slice for an array); empty / nil containers give an empty one.
+func c17OtherElements(c *eng.Ctx) {
+	if !c.Mine(0) || !c.Want("c", -3) {
+		return
+	}
+	conts := []interface{}{
+		[][]int{{1}, {2}, {1, 2}}, [][]interface{}{{1, "a"}, {"a"}, {}}, [][]string{{"a", "admin"}, {"b", "user"}}, map[string][2]int{"a": {1, 2}, "b": {2, 1}}, [][2]int{{1, 1}, {0, 1}},
+		[3][]int{{1}, {2}, {1}}, []*[]int{{1}, {2}}, [][]int{}, [][]int(nil), []string{}, []int(nil), map[string]int{}, [0]int{}, [0][]int{}, map[string][]int{"a": {1}, "b": {}},
+		[]string{"a"}, []int{1, 2}, [1]bool{true},
+	}
+	srcs := []string{"\"/0\" == 1", "\"/0\" != 1", "\"/1\" == `admin`", "\"/1\" == 1 or \"/0\" == 1", "not (\"/0\" == 2)", "\"/0\" is empty"}
+	for si, src := range srcs {
+		flt, err := bexpr.CreateFilter(src)
+		if err != nil {
+			c.Violate(eng.Violation{Kind: "harness-expression-rejected", Key: "create: " + src, Detail: err.Error()})
+			continue
+		}
+		for ci, in := range conts {
+			rv := reflect.ValueOf(in)
+			c.R.States++
+			c.R.Traces++
+			key := fmt.Sprintf("filter=%s | container=%T %v", src, in, in)
+			co := map[string]int{"c": -3, "s": si, "k": ci}
+			// expectation by element-wise Evaluate (maps: only when no element errors or all do, the visiting order being unspecified)
+			var kept []reflect.Value
+			var keptKeys []reflect.Value
+			nerr, n := 0, rv.Len()
+			each := func(k, el reflect.Value) {
+				ev, _ := bexpr.CreateEvaluator(src)
+				o := observe(ev, el.Interface())
+				c.R.Evaluations++
+				if o.class == model.E || o.panicked {
+					nerr++
+				} else if o.class == model.T {
+					kept = append(kept, el)
+					keptKeys = append(keptKeys, k)
+				}
+			}
+			if rv.Kind() == reflect.Map {
+				for _, k := range rv.MapKeys() {
+					each(k, rv.MapIndex(k))
+				}
+				if nerr != 0 && nerr != n {
+					continue
+				}
+			} else {
+				for i := 0; i < n; i++ {
+					each(reflect.Value{}, rv.Index(i))
+				}
+			}
+			out := execute(flt, in)
+			c.R.Evaluations++
+			c.R.Nontrivial++
+			bad := func(kind, exp, obs string) {
+				c.Violate(eng.Violation{Kind: kind, Key: key, Coords: co, Expected: exp, Observed: obs})
+			}
+			switch {
+			case out.panicked != "":
+				bad("panic", "no panic", out.panicked)
+			case nerr > 0:
+				if out.err == nil {
+					bad("erroring-element-not-reported", "error (an element's Evaluate errors)", fmt.Sprintf("%#v", out.res))
+				}
+			case out.err != nil:
+				bad("unexpected-error", fmt.Sprintf("%d of %d elements kept, no error (Evaluate succeeds on every element)", len(kept), n), out.err.Error())
+			default:
+				res := reflect.ValueOf(out.res)
+				wantKind := rv.Kind()
+				if wantKind == reflect.Array {
+					wantKind = reflect.Slice
+				}
+				if !res.IsValid() || res.Kind() != wantKind || res.Len() != len(kept) {
+					bad("selection", fmt.Sprintf("%d elements in a %s", len(kept), wantKind), fmt.Sprintf("%#v", out.res))
+					break
+				}
+				for i, el := range kept {
+					var got reflect.Value
+					if rv.Kind() == reflect.Map {
+						got = res.MapIndex(keptKeys[i])
+					} else {
+						got = res.Index(i)
+					}
+					if !got.IsValid() || !reflect.DeepEqual(got.Interface(), el.Interface()) {
+						bad("selection", fmt.Sprintf("element %v", el.Interface()), fmt.Sprintf("%#v", out.res))
+						break
+					}
+				}
+				c.Count("other-elements:ok")
+			}
+		}
+	}
 }
 
 func emptyFilter() *bexpr.Filter {
